@@ -104,7 +104,7 @@ def run(c):
         big = [x for x in slots if x[2]["lsz"] == 2 and x[2]["data"] == "buf" and x[2]["max"] >= 65535]
         var = [x for x in slots if x[2]["lsz"] > 0 and x[2]["data"] == "buf" and x[2]["max"] >= 100]
         combos = [(a, b, la, lb) for a in big for b in var if a is not b for la in (65400, 65535) for lb in sorted({min(max(b[2]["min"], 133), b[2]["max"]), min(max(b[2]["min"], 1500), b[2]["max"])})]
-        if not thorough: combos = rng.sample(combos, min(len(combos), 2))
+        if not thorough: combos = rng.sample(combos, min(len(combos), 4))
         for a, b, la, lb in combos:
             w = json.loads(json.dumps(ws[0]))
             for (kind, k, s_), l in ((a, la), (b, lb)):
